@@ -19,6 +19,8 @@ import (
 //	neighbours: every ordered pair (u, v) of specials at every lane offset mod 8, in one
 //	            buffer of > 4096 samples, with 1, 2 and 3 channels;
 //	outlier:    200 calm values with a single special at each position 0..130;
+//	tail:       special values in the last 8 positions of buffers of every length around
+//	            64, 128, 256, 512, 1024, 4096 (all residues mod 8);
 //	adjacency:  for every ordered pair (A, B) of instantiations, A then B.
 //
 // Every output is judged by the property's own pointwise oracle, and (where the property
@@ -185,6 +187,33 @@ func (r *ctxRunner) runInst(s, d int, only *ctxCase) {
 			}
 		}
 	}
+	if only == nil || only.Pass == "tail" {
+		// the last positions of buffers whose lengths surround the usual thresholds and cover every
+		// residue mod 8: remainder loops of unrolled / block-wise paths
+		for _, around := range []int{64, 128, 256, 512, 1024, 4096} {
+			for L := around - 1; L <= around+8; L++ {
+				for rot := 0; rot*8 < len(sp); rot++ {
+					if only != nil && (only.Pos != L || only.Spec != rot) {
+						continue
+					}
+					in := make([]uint64, L)
+					for i := range in {
+						in[i] = calm
+					}
+					for j := 0; j < 8 && j < L; j++ {
+						in[L-1-j] = sp[(rot*8+j)%len(sp)]
+					}
+					out := make([]uint64, L)
+					dyn.ConvBlockCh(s, d, L, 1)(in, out)
+					for j := 0; j < 9 && j < L; j++ {
+						i := L - 1 - j
+						r.check(mk("tail", 1, rot, L), s, d, in[i], out[i], base,
+							fmt.Sprintf("[buffer of %d samples, special values in its last 8 positions; looking at position %d]", L, i))
+					}
+				}
+			}
+		}
+	}
 	if only == nil || only.Pass == "outlier" {
 		const n = 200
 		in := make([]uint64, n)
@@ -259,6 +288,17 @@ func ctxRun(c *core.Ctx, prop string, judge ctxJudge, equal bool, filter func(s,
 		b := ctxBaselineCached(sd[0], sd[1])
 		h := sha256.New()
 		for _, x := range b {
+			fmt.Fprintf(h, "%x,", x)
+		}
+		// and the same values through a long buffer (paths that only long buffers take)
+		sp := ctxSpecials(sd[0])
+		long := make([]uint64, 1100)
+		for i := range long {
+			long[i] = sp[i%len(sp)]
+		}
+		lout := make([]uint64, len(long))
+		dyn.ConvBlockCh(sd[0], sd[1], len(long), 2)(long, lout)
+		for _, x := range lout {
 			fmt.Fprintf(h, "%x,", x)
 		}
 		digests[tn(sd[0])+"->"+tn(sd[1])] = hex.EncodeToString(h.Sum(nil)[:8])
